@@ -70,6 +70,18 @@ def check(ctx, p, R):
     clash = OR(*[EQ(x, y) for a_, m in enumerate(sel) for m2 in sel[:a_] for x in rem[m] for y in rem[m2]])
     should_raise = AND(clash, not p.get('ignore'), nR > 0)
     ctx.observe('raised', R['raised'] is not None)
+    if R['raised'] is not None and not R['sampled']:
+        # the error came before any subset was drawn although the fraction may be below 1: then it must be justified for EVERY subset of
+        # the size the fraction asks for (only matches selected for replacement may clash)
+        import itertools
+        M, f = R['M'], R['f']
+        allrem = {m: [R['idx'][m][k] for k in range(n) if k not in kept or nR == 0] for m in range(M)}
+        for k in range(M + 1):
+            nearest = AND(f < 1, k - f * M < 0.5, f * M - k < 0.5)
+            for S in itertools.combinations(range(M), k):
+                cl = OR(*[EQ(x, y) for a_, m in enumerate(S) for m2 in S[:a_] for x in allrem[m] for y in allrem[m2]])
+                ctx.require('no overlap error for matches that are not selected for replacement (partial replacement)',
+                            IMPLIES(nearest, AND(cl, not p.get('ignore'), nR > 0)), detail=dict(subset=S, k=k))
     ctx.require('overlap error raised exactly when two selected matches remove the same atom (and not ignored)',
                 IFF(should_raise, R['raised'] is not None), detail=dict(raised=R['raised']))
     if R['raised'] is None:
